@@ -557,3 +557,55 @@ def wall_flux_clause(vals, kind, flux, normal, side):
     if kind != "shallowwater":
         ok = ok and abs(F[-1]) <= 1e-9 * sc
     return ok
+
+
+# --------------------------------------------------------------------------------------
+# C20
+
+def mesh_clause(vals, cls):
+    import flowdyn.mesh as mesh
+    n = int(num(vals.get("n"), 7))
+    L = num(vals.get("L"), 2.0)
+    x0 = num(vals.get("x0"), 0.25)
+    if cls == "refinedmesh":
+        ratio, a, b = num(vals.get("ratio"), 2.0), num(vals.get("a"), 1.0), num(vals.get("b"), 1.0)
+        m = mesh.refinedmesh(ncell=n, length=L, ratio=ratio, nratioa=a, nratiob=b)
+        first, last = 0.0, L
+    elif cls == "morphedmesh":
+        f = lambda x: x + 0.1 * x ** 3
+        m = mesh.morphedmesh(ncell=n, length=L, x0=x0, morph=f)
+        first, last = f(x0), f(x0 + L)
+    else:
+        m = getattr(mesh, cls)(ncell=n, length=L, x0=x0)
+        first, last = x0, x0 + L
+    xf, xc = np.asarray(m.xf, float), np.asarray(m.xc, float)
+    show(cls=cls, n=n, L=L, x0=x0, xf=xf.tolist()[:6])
+    ok = len(xf) == n + 1 and len(xc) == n and bool(np.all(np.diff(xf) > 0)) and close(xf[0], first) and close(xf[-1], last)
+    ok = ok and close(xc, (xf[:-1] + xf[1:]) / 2) and close(m.vol(), np.diff(xf)) and close(np.sum(m.vol()), xf[-1] - xf[0])
+    ok = ok and close(m.average(np.full(n, 3.25)), 3.25)
+    if cls == "refinedmesh":
+        k = n * a / (a + b)
+        if abs(k - round(k)) < 1e-12:
+            k = int(round(k))
+            d = np.diff(xf)
+            dx1 = (a + b) * L / ((a + ratio * b) * n)
+            ok = ok and close(d[:k], np.full(k, dx1)) and close(d[k:], np.full(n - k, ratio * dx1))
+    return bool(ok)
+
+
+def mesh2d_clause(vals):
+    import flowdyn.mesh2d as mesh2d
+    nx, ny = int(num(vals.get("nx"), 3)), int(num(vals.get("ny"), 2))
+    m = mesh2d.mesh2d(nx, ny, 2.0, 3.0)
+    nxf = ny * (nx + 1)
+    want = {"left": [j * (nx + 1) for j in range(ny)], "right": [j * (nx + 1) + nx for j in range(ny)],
+            "bottom": [nxf + c for c in range(nx)], "top": [nxf + ny * nx + c for c in range(nx)]}
+    ok = m.ncell == nx * ny and m.nbfaces() == (nx + 1) * ny + nx * (ny + 1) and close(m.vol(), np.full(nx * ny, 2.0 / nx * 3.0 / ny))
+    for tag, w in want.items():
+        ok = ok and list(m.index_of_bc(tag)) == w
+    nrm = {"left": (-1, 0), "right": (1, 0), "bottom": (0, -1), "top": (0, 1)}
+    for tag, v in nrm.items():
+        d = m.normal_of_bc(tag)
+        ok = ok and d.shape == (2, len(want[tag])) and bool(np.all(d[0] == v[0])) and bool(np.all(d[1] == v[1]))
+    show(nx=nx, ny=ny, ok=ok)
+    return bool(ok)
